@@ -5,6 +5,9 @@ package dnsserver
 import (
 	"context"
 	"sync"
+	"time"
+
+	"github.com/AdguardTeam/golibs/syncutil"
 
 	"github.com/miekg/dns"
 )
@@ -58,5 +61,38 @@ func VerifC06UDPAsync() {
 		verifAssert("first-sender-gets-its-own-id-and-question", ra.Id == idA && len(ra.Question) == 1 && ra.Question[0].Name == "aaaa.example." && ra.Question[0].Qtype == dns.TypeA)
 		verifAssert("second-sender-gets-its-own-id-and-question", rb.Id == idB && len(rb.Question) == 1 && rb.Question[0].Name == "bb.example." && rb.Question[0].Qtype == dns.TypeAAAA)
 	}
+	verifReach("done")
+}
+
+// VerifC06TCPShort: a TCP message that ends before its announced length is rejected
+// and leaves the receive-buffer pool consistent: the buffer is released once, so two
+// later messages never share one buffer.
+//
+//verif:harness name=H06g-tcp-short tier=quick,thorough bounds="framed message announcing 12..40 bytes but carrying 0..11 of them (or ending inside the length prefix); then two buffers are taken from the pool" reach=done,short-read
+//verif:assume sync.Pool hands released buffers back
+func VerifC06TCPShort() {
+	verifPoolMode(1)
+	h := &verifMultiRecorder{}
+	s := verifNewDNS(h, 64)
+	announced := 12 + verifChoice(29)
+	have := verifChoice(12)
+	data := []byte{byte(announced >> 8), byte(announced)}
+	if verifChoice(8) == 0 {
+		data = data[:1] // the stream ends inside the length prefix
+		have = 0
+	}
+	for i := 0; i < have; i++ {
+		data = append(data, nondetU8())
+	}
+	conn := &verifTCPConn{data: data}
+	wg := &sync.WaitGroup{}
+	err := s.acceptTCPMsg(conn, wg, &sync.Mutex{}, time.Second, syncutil.EmptySemaphore{})
+	wg.Wait()
+	verifAssert("short-message-is-an-error", err != nil)
+	verifAssert("short-message-reaches-no-handler-and-gets-no-response", len(h.reqs) == 0 && len(conn.written) == 0)
+	verifReach("short-read")
+	a := s.tcpPool.Get()
+	b := s.tcpPool.Get()
+	verifAssert("buffer-released-at-most-once", a != b)
 	verifReach("done")
 }
